@@ -105,6 +105,10 @@ class History(object):
         elif k == 'action_update':
             if not acts:
                 return None
+            if c['state'] in ('PAUSED', 'RUNNING') and c.get('live', True):
+                live = [a for a in acts if a['state'] not in FINAL]
+                if live:
+                    acts = live
             a = acts[c['sel'] % len(acts)]
             rec['target'] = ('action', a['id'], a['name'], a['state'])
             rec['state'] = c['state']
@@ -175,6 +179,36 @@ class History(object):
         return rec
 
 
+def dup_kind(ev):
+    """Kind of a duplicable message: result / start_task / start_wf."""
+    if ev.kind == 'act':
+        return 'result'
+    m = ev.meta.get('method')
+    if m == 'start_task':
+        return 'start_task'
+    if m == 'on_action_complete':
+        return 'result'
+    if m == 'start_workflow' and (ev.meta.get('kwargs') or {}).get(
+            'wf_ex_id'):
+        return 'start_workflow'
+    return None
+
+
+def _snap_diff(a, b):
+    out = []
+    for k in ('wf', 'task', 'action'):
+        for i in set(a[k]) | set(b[k]):
+            if a[k].get(i) != b[k].get(i):
+                x, y = a[k].get(i), b[k].get(i)
+                if x is None or y is None:
+                    out.append((k, i[-6:], 'created' if x is None
+                                else 'deleted'))
+                else:
+                    out.append((k, i[-6:], [f for f in x
+                                            if x[f] != y.get(f)]))
+    return out
+
+
 def run_history(case, observe=True, full=False):
     """Run the case with its command plan.  Returns a History."""
     prog = case['prog']
@@ -197,16 +231,32 @@ def run_history(case, observe=True, full=False):
         params['task_name'] = case.get('target') or prog['target']
     if case.get('env'):
         params['env'] = case['env']
-    kind, val = sim.start_workflow(case.get('wf_name') or prog['name'],
-                                   dict(case.get('input') or {}), **params)
-    if kind != 'ok':
-        res.start_error = val
-        res.snap = sim.snapshot(full=full)
-        return h
-    res.wf_ex_id = val.id
+    if case.get('start_with_id'):
+        # the API accepts a caller-supplied execution id: the start request
+        # becomes a message that may be redelivered
+        wid = '11111111-2222-3333-4444-%012d' % (case.get('salt', 0) + 1)
+        cl = sim.rpc_clients.get_engine_client()
+        sim.call(lambda: cl.start_workflow(
+            case.get('wf_name') or prog['name'], wf_ex_id=wid,
+            wf_input=dict(case.get('input') or {}), async_=True, **params))
+        res.wf_ex_id = wid
+    else:
+        kind, val = sim.start_workflow(
+            case.get('wf_name') or prog['name'],
+            dict(case.get('input') or {}), **params)
+        if kind != 'ok':
+            res.start_error = val
+            res.snap = sim.snapshot(full=full)
+            return h
+        res.wf_ex_id = val.id
     sched = enginerun.Schedule(case.get('sched'))
     plan = sorted(case.get('plan') or [], key=lambda c: c['at'])
     budget = enginerun.step_budget(prog) + 100 * len(plan)
+    dups = list(case.get('dups') or [])
+    dup_count = {}
+    held = []          # duplicates delivered after quiescence
+    h.dup_log = []
+    resumes = 0
     fired = 0
     snap = sim.snapshot(full=full)
     h.snaps.append((sim.W.step, 'start', snap))
@@ -219,6 +269,8 @@ def run_history(case, observe=True, full=False):
             c = plan[pi]
             pi += 1
             pending_before = len(en)
+            if not observe:
+                snap = sim.snapshot(full=full)
             rec = h.issue(c, snap)
             if rec is None:
                 h.issued.append({'cmd': c['cmd'], 'skipped': True,
@@ -229,14 +281,75 @@ def run_history(case, observe=True, full=False):
             snap = sim.snapshot(full=full)
             h.snaps.append((sim.W.step, 'cmd:' + c['cmd'], snap))
             en = sim.enabled()
+        if not en and held:
+            for ev in held:
+                sim.W.add(ev)
+            held = []
+            en = sim.enabled()
+        if not en and case.get('resume_at_end') and resumes < 6:
+            cur = sim.snapshot()
+            paused = sorted((w for w in cur['wf'].values()
+                             if w['state'] == 'PAUSED'),
+                            key=lambda w: (w['task_execution_id'] is not None,
+                                           w['created_at'], w['id']))
+            pacts = sorted((a for a in cur['action'].values()
+                            if a['state'] == 'PAUSED'),
+                           key=lambda a: (a['created_at'], a['id']))
+            if paused or pacts:
+                resumes += 1
+                if pacts:
+                    sim.call(sim.rpc_clients.get_engine_client()
+                             .on_action_update, pacts[0]['id'], 'RUNNING')
+                else:
+                    sim.call(sim.rpc_clients.get_engine_client()
+                             .resume_workflow, paused[0]['id'])
+                en = sim.enabled()
+                if en:
+                    continue
         if not en:
             quiet = True
             break
         if fired >= budget:
             break
         idx = sched.choose(en)
-        r = sim.fire(en[idx])
-        fired += 1
+        ch = en[idx]
+        dup_evs = []
+        is_dup = False
+        if ch.kind in ('msg', 'act'):
+            ev0 = ch.ref
+            is_dup = bool(ev0.meta.get('dup_of'))
+            dk = dup_kind(ev0)
+            if dk and not is_dup:
+                n = dup_count.get(dk, 0)
+                dup_count[dk] = n + 1
+                for d in dups:
+                    if d['kind'] == dk and d['nth'] == n:
+                        for ci in range(d.get('copies', 1)):
+                            meta = dict(ev0.meta)
+                            meta['dup_of'] = ev0.seq
+                            dup_evs.append((d.get('where', 'later'),
+                                            sim.Ev(ev0.kind,
+                                                   ev0.label + '~dup',
+                                                   ev0.thunk, meta)))
+        before_dup = sim.snapshot() if is_dup else None
+        r = sim.fire(ch)
+        if not is_dup:
+            fired += 1      # duplicates don't shift the command plan
+        if is_dup:
+            after_dup = sim.snapshot()
+            h.dup_log.append({'label': ch.label, 'step': r['step'],
+                              'exc': r.get('exc'),
+                              'changed': _snap_diff(before_dup, after_dup)})
+        for where, ev in dup_evs:
+            if where == 'now':
+                sim.W.seq += 1
+                ev.seq = sim.W.seq
+                ev.meta['born'] = sim.W.step
+                sim.W.events.insert(0, ev)
+            elif where == 'end':
+                held.append(ev)
+            else:
+                sim.W.add(ev)
         if observe:
             snap = sim.snapshot(full=full)
             h.snaps.append((sim.W.step, '%s:%s' % (r['kind'], r['label']),
